@@ -26,15 +26,17 @@ Ops == {
   O("dur_add", "Dur", "Dur", "Dur"), O("dur_sub", "Dur", "Dur", "Dur"), O("dur_mul", "Dur", "-", "Dur"), O("dur_neg", "Dur", "-", "Dur"),
   O("dur_cmp", "Dur", "Dur", "-"), O("dur_hash", "Dur", "-", "-"), O("dur_str", "Dur", "-", "-"), O("dur_to_days", "Dur", "-", "Dur"),
   O("dur_to_weeks", "Dur", "-", "Dur"), O("dur_abs", "Dur", "-", "Dur"), O("dur_floordiv", "Dur", "-", "Dur"), O("dur_seconds", "Dur", "-", "-"),
-  O("dur_add_zone", "Dur", "Zone", "Dur"), O("zone_sub", "Zone", "Zone", "Dur"), O("zone_str", "Zone", "-", "-"), O("zone_hash", "Zone", "-", "-"),
+  O("dur_add_zone", "Dur", "Zone", "Dur"), O("zone_sub", "Zone", "Zone", "Zone"), O("zone_str", "Zone", "-", "-"), O("zone_hash", "Zone", "-", "-"),
   O("rec_add_dur", "Rec", "Dur", "Rec"), O("dur_radd_rec", "Rec", "Dur", "Rec"), O("rec_sub_dur", "Rec", "Dur", "Rec"),
   O("rec_iter2", "Rec", "-", "TP"), O("rec_getitem", "Rec", "-", "TP"), O("rec_is_valid", "Rec", "TP", "-"),
   O("rec_next", "Rec", "TP", "TP"), O("rec_prev", "Rec", "TP", "TP"), O("rec_first_after", "Rec", "TP", "TP"),
   O("ttp_add_tp", "TTP", "TP", "TP"), O("tp_add_ttp", "TP", "TTP", "TP"), O("ttp_str", "TTP", "-", "-"), O("ttp_hash", "TTP", "-", "-"),
   O("ttp_to_utc", "TTP", "-", "TTP"), O("ttp_props", "TTP", "-", "-"), O("ttp_cmp", "TTP", "TTP", "-"),
+  \* constructors that take existing values as arguments (the new value may hold them, it must not change them)
+  O("rec_new_sd", "TP", "Dur", "Rec"), O("rec_new_de", "TP", "Dur", "Rec"), O("rec_new_se", "TP", "TP", "Rec"), O("rec_new_win", "TP", "TP", "Rec"),
   O("rec_eq", "Rec", "Rec", "-"), O("rec_hash", "Rec", "-", "-"), O("rec_str", "Rec", "-", "-"), O("rec_anchors", "Rec", "-", "TP")}
 
-Pool0 == <<"TP", "TP", "Dur", "Dur", "Zone", "Rec", "Rec", "TTP">>
+Pool0 == <<"TP", "TP", "Dur", "Dur", "Zone", "Rec", "Rec", "TTP", "Zone">>
 Init == pool = Pool0 /\ hist = << >>
 
 Apply(o, i, j) ==
